@@ -1085,7 +1085,21 @@ def sym_sort(a, axis=-1):
     return _result(np.moveaxis(out, -1, axis))
 
 
+def _only_kw(fn, kw, allowed):
+    """models must not silently ignore an argument they do not implement (a changed tree may pass one): unknown -> Unsupported"""
+    extra = set(kw) - set(allowed)
+    if extra:
+        raise Unsupported(f"{fn}: keyword(s) {sorted(extra)} not modelled")
+    if kw.get("out") is not None:
+        raise Unsupported(f"{fn}: out= not modelled")
+    if kw.get("method", "linear") != "linear" or kw.get("interpolation", "linear") != "linear":
+        raise Unsupported(f"{fn}: only linear interpolation is modelled")
+    if kw.get("invert"):
+        raise Unsupported(f"{fn}: invert= not modelled")
+
+
 def sym_median(a, axis=None, **kw):
+    _only_kw("sym_median", kw, ['keepdims', 'out', 'overwrite_input'])
     b, lanes, shp = _lanes(a, axis)
     out = np.empty(shp, dtype=object)
     for pos, lane in lanes:
@@ -1103,6 +1117,7 @@ def sym_median(a, axis=None, **kw):
 
 
 def sym_percentile(a, q, axis=None, **kw):
+    _only_kw("sym_percentile", kw, ['interpolation', 'keepdims', 'method', 'out', 'overwrite_input'])
     if kw.get("method", "linear") != "linear":
         raise Unsupported("percentile method")
     if not np.isscalar(q):
@@ -1145,6 +1160,7 @@ def sym_argsort_perm(keys_list, n):
 
 
 def sym_unique(ar, return_index=False, return_inverse=False, return_counts=False, axis=None, **kw):
+    _only_kw("sym_unique", kw, ['equal_nan'])
     a = _plain(np.asarray(ar))
     if a.dtype == object:
         a = concretize_values(a)
@@ -1269,6 +1285,7 @@ def sym_bincount(x, weights=None, minlength=0):
 
 
 def sym_isin(el, test, **kw):
+    _only_kw("sym_isin", kw, ['assume_unique', 'invert'])
     T = _plain(np.asarray(test)).ravel().tolist()
 
     def f(e):
@@ -1287,6 +1304,35 @@ def _passthrough(func):
     def f(*args, **kwargs):
         return _rewrap(func._implementation(*args, **kwargs))
     return f
+
+
+def _single_precision_inputs(objs):
+    """True when the array inputs of a structural operation (concatenate, pad, r_, roll, ...) are all symbolic arrays tagged float32
+    (scalars and shape/index arguments aside): NumPy keeps the dtype, and so does the result here.  Other tags are not propagated."""
+    found = False
+
+    def walk(x):
+        nonlocal found
+        if isinstance(x, SymArray):
+            if getattr(x, "tag", None) != np.dtype(np.float32):
+                return False
+            found = True
+            return True
+        if isinstance(x, np.ndarray):
+            return x.dtype.kind in "iub" or x.dtype == np.float32 or x.size == 0
+        if isinstance(x, (list, tuple)):
+            return all(walk(y) for y in x)
+        if isinstance(x, (Sym, builtins.float, np.floating)) and not isinstance(x, (SInt, SBool)):
+            return not isinstance(x, np.float64)
+        return True
+    ok = all(walk(o) for o in objs)
+    return ok and found
+
+
+def _retag(r, single):
+    if single and isinstance(r, SymArray) and getattr(r, "tag", None) is None:
+        r.tag = np.dtype(np.float32)
+    return r
 
 
 def _rewrap(r):
@@ -1311,7 +1357,7 @@ def _structural(func):
                 return type(x)(conv(y) for y in x)
             return x
         r = func(*[conv(a) for a in args], **{k: conv(v) for k, v in kwargs.items()})
-        return _rewrap(r)
+        return _retag(_rewrap(r), _single_precision_inputs(args[:1]))
     return f
 
 
@@ -1329,10 +1375,24 @@ def _concat_like(func):
                 conv.append(x.astype(object))
             else:
                 conv.append(np.asarray(x, dtype=object))
+        single = "dtype" not in kwargs and _single_precision_inputs(list(arrays))
         kwargs.pop("dtype", None)
         kwargs.pop("casting", None)
-        return _rewrap(func(conv, *args, **kwargs))
+        return _retag(_rewrap(func(conv, *args, **kwargs)), single)
     return f
+
+
+def sym_pad(array, pad_width, mode="constant", **kwargs):
+    """np.pad keeps the dtype of its input: padding an integer array with NaN is an error in NumPy (and here)"""
+    tag = getattr(array, "tag", None)
+    if mode == "constant" and tag is not None and np.dtype(tag).kind in "iu":
+        cv = np.ravel(np.asarray(kwargs.get("constant_values", 0), dtype=object)).tolist()
+        if any(isinstance(c, (builtins.float, np.floating)) and (math.isnan(c) or math.isinf(c)) for c in cv):
+            raise ValueError("cannot convert float NaN to integer")
+    r = _structural(np.pad._implementation)(array, pad_width, mode=mode, **kwargs)
+    if isinstance(r, SymArray) and tag is not None and getattr(r, "tag", None) is None:
+        r.tag = tag
+    return r
 
 
 def sym_zeros_like(a, dtype=None, order="K", subok=True, shape=None):
@@ -1375,7 +1435,19 @@ def sym_sum_like(ufunc):
     return f
 
 
-def sym_mean(a, axis=None, dtype=None, out=None, keepdims=False, **kw):
+def sym_mean(a, axis=None, dtype=None, out=None, keepdims=False, where=None, **kw):
+    if kw:
+        raise Unsupported(f"np.mean keyword(s) {sorted(kw)}")
+    if where is not None and where is not True:
+        # mean over the selected elements only: sum(where ? x : 0) / count(where)
+        W = np.broadcast_to(np.asarray(_plain(where), dtype=object) if isinstance(where, np.ndarray) else np.asarray(where, dtype=object), np.shape(_plain(a)))
+        num = _reduce(np.add, UFUNC_TABLE[np.add], _elementwise(lambda x, w: ite(w, _num(x), 0) if isinstance(w, Sym) else (_num(x) if w else 0), [a, wrap(np.array(W, dtype=object))]),
+                      dict(axis=axis, keepdims=keepdims))
+        cnt = _reduce(np.add, UFUNC_TABLE[np.add], _elementwise(lambda w: _num(w) if isinstance(w, Sym) else (1 if w else 0), [wrap(np.array(W, dtype=object))]),
+                      dict(axis=axis, keepdims=keepdims))
+        if isinstance(num, np.ndarray):
+            return _result(_elementwise(lambda x, n: s_div(x, n), [num, cnt]))
+        return s_div(num, cnt)
     s = _reduce(np.add, UFUNC_TABLE[np.add], a, dict(axis=axis, keepdims=keepdims))
     A = np.asarray(_plain(a))
     if axis is None:
@@ -1385,18 +1457,25 @@ def sym_mean(a, axis=None, dtype=None, out=None, keepdims=False, **kw):
     else:
         n = A.shape[axis]
     if n == 0:
-        raise Unsupported("mean of empty slice")
+        # NumPy: mean of an empty slice is NaN (with a RuntimeWarning)
+        import warnings
+        with warnings.catch_warnings():
+            warnings.simplefilter("ignore")
+            r = np.mean(np.zeros(A.shape), axis=axis, keepdims=keepdims)
+        return _result(np.asarray(r, dtype=object)) if isinstance(r, np.ndarray) and r.shape else builtins.float("nan")
     if isinstance(s, np.ndarray):
         return _result(_elementwise(lambda x: s_div(x, n), [s]))
     return s_div(s, n)
 
 
 def sym_nansum(a, axis=None, **kw):
+    _only_kw("sym_nansum", kw, ['dtype', 'keepdims', 'out'])
     z = _elementwise(lambda e: ite(s_isnan(e), 0.0, e) if isinstance(e, Sym) else (0.0 if s_isnan(e) else e), [a])
     return _reduce(np.add, UFUNC_TABLE[np.add], z, dict(axis=axis, keepdims=kw.get("keepdims", False)))
 
 
 def sym_nanmean(a, axis=None, **kw):
+    _only_kw("sym_nanmean", kw, ['dtype', 'keepdims', 'out'])
     tot = sym_nansum(a, axis=axis, **kw)
     cnt = _reduce(np.add, UFUNC_TABLE[np.add], _elementwise(lambda e: _num(not_(s_isnan(e))) if isinstance(s_isnan(e), Sym) else (0 if s_isnan(e) else 1), [a]),
                   dict(axis=axis, keepdims=kw.get("keepdims", False)))
@@ -1413,6 +1492,7 @@ def sym_nanmean(a, axis=None, **kw):
 
 
 def sym_nanmedian(a, axis=None, **kw):
+    _only_kw("sym_nanmedian", kw, ['keepdims', 'out', 'overwrite_input'])
     """median ignoring NaN entries (a lane of NaNs only gives NaN); symbolic NaN flags fork"""
     A = np.asarray(_plain(a), dtype=object)
     if axis is None:
@@ -1429,7 +1509,20 @@ def sym_nanmedian(a, axis=None, **kw):
         else:
             m = sym_median(mk(lane))
             out[pos] = m[()] if isinstance(m, np.ndarray) else m
+    if kw.get("overwrite_input"):
+        _havoc_in_place(a)
     return _result(out) if out.shape else out[()]
+
+
+def _havoc_in_place(a):
+    """`overwrite_input=True`: NumPy may reorder the input array while it works - afterwards its content is unspecified.  The cells of
+    the array the caller passed (a view writes through to its base, as in NumPy) become fresh unknown reals."""
+    if not isinstance(a, np.ndarray) or a.dtype != object:
+        return
+    base = len(cur().inputs)
+    flat_idx = list(np.ndindex(*a.shape))
+    for n_, idx in enumerate(flat_idx):
+        np.ndarray.__setitem__(a.view(np.ndarray), idx, cur().real(f"overwritten{base}_{n_}"))
 
 
 def sym_nan_to_num(x, copy=True, nan=0.0, posinf=None, neginf=None):
@@ -1445,21 +1538,25 @@ def sym_nan_to_num(x, copy=True, nan=0.0, posinf=None, neginf=None):
 
 
 def sym_any(a, axis=None, out=None, keepdims=False, **kw):
+    _only_kw("sym_any", kw, [])
     return _reduce(np.logical_or, s_or, _elementwise(lambda e: e if isinstance(e, (SBool, builtins.bool, np.bool_)) else _num(e) != 0, [a]),
                    dict(axis=axis, keepdims=keepdims))
 
 
 def sym_all(a, axis=None, out=None, keepdims=False, **kw):
+    _only_kw("sym_all", kw, [])
     return _reduce(np.logical_and, s_and, _elementwise(lambda e: e if isinstance(e, (SBool, builtins.bool, np.bool_)) else _num(e) != 0, [a]),
                    dict(axis=axis, keepdims=keepdims))
 
 
 def sym_count_nonzero(a, axis=None, **kw):
+    _only_kw("sym_count_nonzero", kw, ['keepdims'])
     return _reduce(np.add, UFUNC_TABLE[np.add], _elementwise(lambda e: _num(e != 0) if not isinstance(e, (SBool, builtins.bool, np.bool_)) else _num(e), [a]),
                    dict(axis=axis))
 
 
 def sym_clip(a, a_min=None, a_max=None, out=None, **kw):
+    _only_kw("sym_clip", kw, [])
     r = a
     if a_min is not None:
         r = array_ufunc(np.maximum, "__call__", (r, a_min), {})
@@ -1495,10 +1592,21 @@ def sym_argsort(a, axis=-1, kind=None, order=None, stable=None):
 
 
 def sym_cumsum(a, axis=None, dtype=None, out=None):
+    if out is not None:
+        raise Unsupported("cumsum out=")
+    tag = getattr(a, "tag", None)
     A = _plain(np.asarray(a))
     if axis is None:
         A = A.reshape(-1)
         axis = 0
+    single = (tag == np.dtype(np.float32) and dtype is None) or (dtype is not None and _np_dtype(dtype) == np.dtype(np.float32))
+    if single and A.ndim == 1 and A.dtype == object:
+        # a running sum kept in single precision: every partial sum is rounded (this is where a float32 cumsum loses digits)
+        acc, outl = None, []
+        for e in A.tolist():
+            acc = _num(e) if acc is None else _round_to_float32(np.array([acc + _num(e)], dtype=object)).ravel().tolist()[0]
+            outl.append(acc)
+        return mk(outl, tag=np.dtype(np.float32))
     return _accumulate(UFUNC_TABLE[np.add], A, dict(axis=axis))
 
 
@@ -1536,6 +1644,7 @@ def _install():
               np.result_type, np.can_cast, np.around, np.fix, np.linspace, np.ix_, np.meshgrid,
               np.setxor1d, np.intersect1d, np.union1d, np.array_equiv, np.allclose, np.unravel_index):
         _reg(f, _passthrough(f))
+    _reg(np.pad, sym_pad)
     _reg(np.where, sym_where)
     _reg(np.real, sym_real)
     _reg(np.nonzero, lambda a: sym_where(a))
@@ -1622,7 +1731,7 @@ class _IndexTrick:
                 conv.append(k)
             else:
                 conv.append(np.atleast_1d(np.asarray(k, dtype=object)) if not np.isscalar(k) else np.array([k], dtype=object))
-        return _rewrap(self._real[tuple(conv)])
+        return _retag(_rewrap(self._real[tuple(conv)]), _single_precision_inputs([k for k in ks if not isinstance(k, (str, slice))]))
 
 
 class _CastMeta(type):
